@@ -36,6 +36,8 @@ GenCrossLeaf == Fam_cross
 GenCrossInit == {Empty, [l \in {"s.host"} |-> "s:abc"], [l \in {"s.hostname", "pl.n"} |-> IF l = "pl.n" THEN "u:1" ELSE "s:a"]}
 GenPresLeaf == Fam_pres
 GenPresInit == {Empty, [l \in {"pl.s"} |-> "s:b"]}
+GenNsLeaf == {"i1.name", "i1.val", "i1.xval", "s.ext", "s.xc.inner", "s.hostname", "pl.a", "s.tags"}
+GenNsInit == {Empty, [l \in {"s.host"} |-> "s:abc"]}
 GenValidLeaf == Fam_valid
 GenValidInit == {Empty, [l \in {"s.host", "pl.n"} |-> IF l = "s.host" THEN "s:abc" ELSE "u:1"],
                  [l \in {"i2.name", "s.hostname"} |-> IF l = "i2.name" THEN "key" ELSE "s:a"]}
